@@ -233,7 +233,8 @@ def gen_ops(rng, sc, tier):
             ops.append(("bspline", "rnd %d %s bspline %d %s" % (sd, "len", rng.choice([0, 1, 3, 5]), B(rng.choice([2.2e-16, 1e-3, L / 100])))))
             ops.append(("perturb", "rnd %d %s perturb %s %d %d %s" % (sd, o(), B(rng.choice([0.3, 1.0, L, 3 * L])), steps(), steps(), B(snap()))))
             ops.append(("bettergoal", "rnd %d %s bettergoal %d %d %s %s" % (sd, o(), rng.choice([0, 3, 1000000]), rng.choice([1, 10]), B(rr()), B(snap()))))
-            ops.append(("simplify", "rnd %d %s simplify %d %d" % (sd, "len", rng.choice([0, 1, 2, 3, 5, 8, 13, 21, 40, 1000000]), rng.below(2))))
+            for _ in range(2):
+                ops.append(("simplify", "rnd %d %s simplify %d %d" % (sd, "len", rng.choice([0, 1, 2, 3, 4, 5, 6, 8, 10, 13, 21, 40, 1000000]), rng.below(2))))
             ops.append(("simplifymax", "rnd %d %s simplifymax" % (sd, "len")))
     return ops
 
@@ -280,6 +281,8 @@ def parse_result(line, w):
         r["vsc"] = [int(x) for x in t[i + 2:]]
     if i < len(t) and t[i] == "ptc":
         r["ptc_fired"] = t[i + 1] == "1"
+    if i < len(t) and t[i] == "iv":
+        r["iv_tokens"] = t[i:]
     return r
 
 
@@ -589,7 +592,7 @@ def run_scenario(ck, hbin, hchk, sc, ops, tag, seedtag):
         if not res["chk"]:
             ck.count("result-check-false:" + routine)
         fail_issues = [dict(kind="oracle", routine=routine, clause=clause, detail=detail, objective=objective,
-                            cls="ptc-fired-mid-run" if (clause == "simplify_true_implies_check" and res.get("ptc_fired")) else None,
+                            cls="termination condition fired mid-run (F56 window)" if (clause == "simplify_true_implies_check" and res.get("ptc_fired")) else None,
                             rnd=rnd, script=hdr + [line], observed=[o]) for clause, detail in fails]
         if not rnd and routine in LOCKSTEP:
             pending_fails[line] = fail_issues      # judged after the model run (an index error explains them)
@@ -614,61 +617,64 @@ def run_scenario(ck, hbin, hchk, sc, ops, tag, seedtag):
         for (routine, line, res, o), m in zip(dmap, model[2:]):
             ck.traces_validated += 1
             impl_c = canon(res["prefix"])
+            corr = lambda: dict(kind="corr", routine=routine, clause="lockstep", detail="model and implementation differ",
+                                script=hdr + [line], dscript=dscript[:3] + [dscript[3 + [x[1] for x in dmap].index(line)]],
+                                observed=[res["prefix"]], model=[m])
+            idx_err = lambda: dict(kind="idx", routine=routine, clause="indices_in_range", cls="model-index-error",
+                                   detail="checked indexing fails in the model of the current code: the routine indexes a vector out of range",
+                                   script=hdr + [line], observed=[o], model=[m])
             if routine == "pshort":
-                m, _, mfixed = m.partition(" | fixed ")
-                m, mfixed = canon(m), canon(mfixed)
-                if impl_c != m and impl_c == mfixed:
-                    ck.count("pshort:agrees-with-fixed-variant")
+                # the driver prints the model of the current code, then the model of the code before fix f9a435dd6 (F55)
+                mc, _, mo = m.partition(" | old ")
+                mc, mo = canon(mc), canon(mo)
+                if mc == "idx-error":
+                    issues.append(idx_err())
+                elif impl_c == mc:
+                    if mc != mo:
+                        ck.count("pshort:input-on-which-the-pre-F55-code-differs")
                     issues += pending_fails.get(line, [])
+                elif mo == "idx-error" or impl_c == mo:
+                    issues.append(dict(kind="regress", fid="F55", routine="pshort", clause="indices_in_range" if mo == "idx-error" else "finite" if " nan" in mo else "lockstep",
+                                       cls="snap test misses an exact hit (behaviour of the code before fix f9a435dd6)",
+                                       detail="partialShortcutPath behaves like the code before fix F55 (snap-to-vertex test `<`): " +
+                                              ("a sample at the end of the path reads dists[pos+1] / states[pos+1] out of range" if mo == "idx-error"
+                                               else "a sample exactly on a vertex is not snapped" + (" (t = 0/0: NaN state in the path)" if " nan" in mo else "")),
+                                       script=hdr + [line], observed=[o], model=[m]))
+                else:
+                    issues += pending_fails.get(line, [])
+                    issues.append(corr())
+            elif routine == "rope":
+                # current code first, then the code before fix 695c3e72c (F9)
+                cur, _, old = m.partition(" | old ")
+                if cur == "idx-error" or " oob 1" in cur:
+                    issues.append(idx_err())
                     continue
-                if m != mfixed:
-                    ck.count("pshort:exact-vertex-hit-without-snap")
-                    if impl_c == m and " nan" in m and " nan" not in mfixed and F(line.split()[4]) == 0.0:
-                        # same root cause as the out-of-range read: a sample that hits a vertex exactly is not snapped when
-                        # snapToVertex = 0; at a repeated vertex t = 0/0 and a NaN state enters the path
-                        issues.append(dict(kind="oracle", routine="pshort", clause="finite", cls="snap0-exact-vertex-hit",
-                                           detail="a sample exactly on a repeated vertex with snapToVertex = 0 yields t = 0/0: NaN state in the result",
-                                           script=hdr + [line], observed=[o], model=[m]))
-                        continue
-            else:
-                m = canon(m) if routine != "rope" else m
-            if m == "idx-error":
-                # the model's checked indexing failed: the real routine indexes a vector out of range on this input
-                snap0 = routine == "pshort" and F(line.split()[4]) == 0.0
-                issues.append(dict(kind="idx", routine=routine, clause="indices_in_range",
-                                   cls="snap0-sample-at-path-end" if snap0 else "model-index-error",
-                                   detail="checked indexing fails in the model: the routine indexes a vector out of range",
-                                   script=hdr + [line], observed=[o], model=[m]))
-                continue
-            issues += pending_fails.get(line, [])
-            if routine == "rope":
-                unf, _, fx = m.partition(" | fixed ")
-                mu = unf.split(" oob ")[0]
-                oob = " oob 1" in unf
-                fuel_out = unf.endswith(" fo 1")
-                mf = fx.split(" fo ")[0]
-                if fuel_out:
+                if cur.endswith(" fo 1"):
                     ck.count("rope:model-fuel-out")
                     continue
-                if res["prefix"] == mu:
-                    if oob:
-                        issues.append(dict(kind="f9", routine="rope", clause="indices_in_range", cls="stale-index-after-erase: read past end()", distinct=(mu != mf),
-                                           detail="after states.erase(i+1..j) the routine reads states[j] with j >= size()", script=hdr + [line], observed=[o], model=[m]))
-                    elif mu != mf:
-                        issues.append(dict(kind="f9", routine="rope", clause="indices_in_range", cls="stale-index-after-erase: wrong state",
-                                           detail="after states.erase(i+1..j) states[j] names a later state: wrong distance / wrong early-return test",
-                                           script=hdr + [line], observed=[o], model=[m]))
-                    else:
-                        ck.count("rope:agree-no-stale-effect")
-                elif res["prefix"] == mf:
-                    ck.count("rope:agrees-with-fixed-variant")
+                mc, mo = cur.split(" oob ")[0], old.split(" oob ")[0]
+                issues += pending_fails.get(line, [])
+                if res["prefix"] == mc:
+                    if mo != mc:
+                        ck.count("rope:input-on-which-the-pre-F9-code-differs")
+                    elif " oob 1" in old:
+                        # the old code would read states[j] past end() here with the same result: only the bounds-checked
+                        # build can tell whether that read is back (probed by handle() on the first inputs of a run)
+                        issues.append(dict(kind="f9probe", routine="rope", script=hdr + [line], observed=[o], model=[m]))
+                elif res["prefix"] == mo:
+                    issues.append(dict(kind="regress", fid="F9", routine="rope", clause="indices_in_range", cls="stale index after erase: wrong state",
+                                       detail="ropeShortcutPath behaves like the code before fix F9: after states.erase(i+1..j) the stale j is used "
+                                              "(wrong distance / wrong early-return test)", script=hdr + [line], observed=[o], model=[m]))
                 else:
-                    issues.append(dict(kind="corr", routine=routine, clause="lockstep", detail="model and implementation differ",
-                                       script=hdr + [line], dscript=dscript[:3] + [dscript[3 + [x[1] for x in dmap].index(line)]], observed=[res["prefix"]], model=[m]))
+                    issues.append(corr())
             else:
+                m = canon(m)
+                if m == "idx-error":
+                    issues.append(idx_err())
+                    continue
+                issues += pending_fails.get(line, [])
                 if impl_c != m:
-                    issues.append(dict(kind="corr", routine=routine, clause="lockstep", detail="model and implementation differ",
-                                       script=hdr + [line], dscript=dscript[:3] + [dscript[3 + [x[1] for x in dmap].index(line)]], observed=[res["prefix"]], model=[m]))
+                    issues.append(corr())
     return issues
 
 
@@ -706,6 +712,115 @@ def run_hybrid(ck, hbin, sc, rng):
     fails = oracle_hybrid(sc, line, impl[1], paths)
     ck.case(("hybrid", line[:80]), len(paths) > 1)
     return [dict(kind="oracle", routine="hybrid", clause=c, detail=d, objective=obj, script=script, observed=impl) for c, d in fails]
+
+
+def point_valid(sc, s):
+    return all(sc.lo <= s[d] <= sc.hi for d in range(sc.pdim)) and not any(
+        all(lo[d] <= s[d] <= hi[d] for d in range(sc.pdim)) for lo, hi in sc.boxes)
+
+
+def run_repair(ck, hbin, sc, rng):
+    """PathGeometric::checkAndRepair in lock-step with the model (scripted raw samples through the space's sampler
+    allocator) on a deliberately damaged copy of the scenario's path, + oracle on the real output"""
+    issues = []
+    if sc.kind == "se2" or len(sc.path) < 1:
+        return issues
+
+    def rand_state():
+        return tuple(rng.uniform(0.1, 9.9) for _ in range(sc.pdim))
+    path = list(sc.path)
+    mode = rng.below(4)
+    if len(path) >= 3 and mode != 0:
+        for _ in range(rng.range(1, max(1, len(path) // 3))):
+            i = rng.range(0 if mode == 3 else 1, len(path) - (1 if mode == 3 else 2))
+            path[i] = rand_state()
+    ops = []
+    for _ in range(3):
+        k = rng.choice([0, 1, 3, 10, 40])
+        samples = [rand_state() if rng.chance(3, 4) or len(path) < 2 else
+                   tuple(a + (b - a) * rng.unit() + rng.uniform(-0.3, 0.3) for a, b in zip(path[0], path[-1])) for _ in range(k)]
+        att = rng.choice([0, 1, 2, 5, 100])
+        ops.append((att, samples, " ".join(["repair", str(att), str(k)] + [B(x) for s_ in samples for x in s_])))
+    hdr = ["pathops", sc.env_line(), sc.states_line("path", path)]
+    impl, rc, err = run_h(ck, hbin, hdr + [l for _, _, l in ops], timeout=120)
+    if impl is None or rc != 0 or len(impl) != 2 + len(ops):
+        return [dict(kind="oracle", routine="repair", clause="crash", detail="rc=%s %s" % (rc, (err or "")[:600]), script=hdr + [l for _, _, l in ops], observed=impl or [])]
+    dscript = list(hdr)
+    parsed = []
+    inp_bits = [tuple(B(x) for x in s_) for s_ in path]
+    for (att, samples, line), o in zip(ops, impl[2:]):
+        ck.count("op:repair")
+        try:
+            res = parse_result(o, sc.w)
+        except Exception as e:
+            issues.append(dict(kind="oracle", routine="repair", clause="protocol", detail="unparsable %r" % (e,), script=hdr + [line], observed=[o]))
+            continue
+        orig, second = res["ret"] >> 1, res["ret"] & 1
+        out = res["out"]
+        fails = []
+        if len(out) != len(inp_bits):
+            fails.append(("count", "number of states changed"))
+        elif out:
+            if out[0] != inp_bits[0] or out[-1] != inp_bits[-1]:
+                fails.append(("endpoints", "first or last state changed"))
+            sample_bits = {tuple(B(x) for x in s_): s_ for s_ in samples + [path[0]]}   # path[0]: the sampler's default once the script is exhausted
+            for a, b in zip(out, inp_bits):
+                if a != b:
+                    if a not in sample_bits:
+                        fails.append(("only_validated_states", "a state of the result is neither the input state nor a raw sample"))
+                        break
+                    if second and not point_valid(sc, sample_bits[a]):
+                        fails.append(("only_validated_states", "checkAndRepair reports success but introduced an invalid state"))
+                        break
+        if second and not res["chk"]:
+            fails.append(("repair_true_implies_check", "checkAndRepair returned (_, true) but check() fails on the result"))
+        if orig and out != inp_bits:
+            fails.append(("original_unchanged", "originalValid = true but the path was changed"))
+        changed = out != inp_bits
+        ck.case(("repair", line[:60], len(path)), changed)
+        ck.count("repair:result=%d%d" % (orig, second))
+        for c_, d_ in fails:
+            issues.append(dict(kind="oracle", routine="repair", clause=c_, detail=d_, script=hdr + [line], observed=[o]))
+        dscript.append(line + " " + " ".join(res.get("iv_tokens", ["iv", "0"])) + " " + " ".join(res["cm_tokens"]))
+        parsed.append((line, res, o))
+    model, rc2, err2 = ck.run_bin(ck.driver(DRIVER), dscript, timeout=120)
+    if rc2 != 0 or model is None or len(model) != 2 + len(parsed):
+        issues.append(dict(kind="corr", routine="driver", clause="driver", detail="driver rc=%s %s" % (rc2, (err2 or "")[-300:]), script=dscript, observed=model or []))
+        return issues
+    for (line, res, o), m in zip(parsed, model[2:]):
+        ck.traces_validated += 1
+        if canon(res["prefix"]) != canon(m):
+            issues.append(dict(kind="corr", routine="repair", clause="lockstep", detail="model and implementation differ",
+                               script=hdr + [line], dscript=dscript[:3] + [dscript[3 + [x[0] for x in parsed].index(line)]], observed=[res["prefix"]], model=[m]))
+    return issues
+
+
+def gen_corner_scenario(rng):
+    """directed: a zigzag through one box corner whose every segment clips the corner BETWEEN the samples of the discrete motion
+    check (length 0.566 < 2 * spacing 0.3: samples at the midpoint and the end only; the stretch t in [0.125, 0.375] is inside the
+    box).  check() accepts the path; a quarter of its length is inside the obstacle, so cut points made by partialShortcutPath
+    are often invalid states — the situation in which simplify() must not report success without checking."""
+    sc = Scenario()
+    sc.kind, sc.pdim, sc.w = "rv2", 2, 2
+    sc.res = 0.3 / (math.sqrt(2) * 10.0)
+    c = rng.uniform(3.0, 6.0)
+    sc.boxes = [((c, c), (c + 2.5, c + 2.5))]
+    n = rng.choice([6, 10, 16, 24])
+    path = []
+    for k in range(n):
+        e = rng.uniform(-0.004, 0.004)
+        if k % 2 == 0:
+            path.append((c - 0.05 + e, c + 0.15 + e))
+        else:
+            path.append((c + 0.35 + e, c - 0.25 + e))
+    sc.path = path
+    sc.goals = [path[-1]]
+    ops = []
+    for _ in range(10):
+        ops.append(("simplify", "rnd %d len simplify %d %d" % (rng.below(1000), rng.choice([0, 1, 2, 3, 4, 5, 6, 8, 10, 13, 17, 25, 40]), rng.below(2))))
+    ops.append(("simplifymax", "rnd %d len simplifymax" % rng.below(1000)))
+    ops.append(("pshort", "rnd %d len pshort 0 0 %s %s" % (rng.below(1000), B(0.33), B(0.005))))
+    return sc, ops
 
 
 def corpus():
@@ -765,53 +880,65 @@ def setup(ck):
 
 
 def handle(ck, issues, hchk, state):
+    """turn issues into reports.  At most 2 replays per (routine, clause, class), so that one defect that shows on a hundred
+    inputs does not hide the others."""
+    def capped(key):
+        state["seen"][key] = state["seen"].get(key, 0) + 1
+        ck.count("issue:%s/%s/%s" % key)
+        return state["seen"][key] > 2
+
     for it in issues:
-        if it["kind"] == "f9":
-            ck.count("rope-model-flag:" + it["cls"])
-            if "past end" in it["cls"] and not it.get("distinct"):
-                # both model variants give the same path here, so only the bounds-checked build (-D_GLIBCXX_ASSERTIONS) of the
-                # same sources can tell whether this tree still reads states[j] past end(): probe the first three such inputs
-                if state["f9_probes"] < 3:
-                    verdict = "unfixed" if confirm_f9(ck, hchk, it) else "fixed"
-                    state["f9_probes"] += 1
-                    ck.count("f9:bounds-checked-build-says-" + verdict)
-                    if state["f9_tree"] is None:
-                        state["f9_tree"] = verdict
-                    elif state["f9_tree"] != verdict:
-                        ck.disagreements += 1
-                        state["bad"] += 1
-                        ck.report({"engine": "pathops", "routine": "rope", "what": "the bounds-checked build aborts on some stale-index inputs and not on others"},
-                                  script=it["script"], expected=it.get("model"), observed=it["observed"], found_input=False, engine="pathops",
-                                  obligation="correspondence pathops: ropeShortcutPath stale index (model oob flag vs -D_GLIBCXX_ASSERTIONS build)")
-                        continue
-                if state["f9_tree"] == "fixed":
-                    ck.count("rope:no-stale-read-on-this-tree")
-                    continue
-            ck.report({"engine": "pathops", "routine": "rope", "clause": "indices_in_range", "class": it["cls"]},
-                      script=it["script"], expected=it.get("model"), observed=it["observed"], engine="pathops")
-        elif it["kind"] == "idx":
-            ck.count("idx:" + it["routine"] + ":" + it["cls"])
-            if state["idx_confirmed"] < 3:
+        kind = it["kind"]
+        if kind == "f9probe":
+            ck.count("rope:inputs-where-pre-F9-code-read-past-end")
+            if state["f9_probes"] < 3:
+                state["f9_probes"] += 1
                 if confirm_f9(ck, hchk, it):
-                    state["idx_confirmed"] += 1
-                    ck.count("idx:confirmed-by-bounds-checked-build")
+                    kind = "regress"
+                    it = dict(it, kind="regress", fid="F9", clause="indices_in_range", cls="stale index after erase: read past end()",
+                              detail="the bounds-checked build (-D_GLIBCXX_ASSERTIONS) of ropeShortcutPath aborts: states[j] is read with j >= size() "
+                                     "after states.erase(i+1..j) (behaviour of the code before fix F9)")
                 else:
-                    ck.disagreements += 1
-                    state["bad"] += 1
-                    ck.report({"engine": "pathops", "routine": it["routine"], "what": "model reports an index error that the bounds-checked build does not see"},
-                              script=it["script"], expected=it.get("model"), observed=it["observed"], found_input=False, engine="pathops",
-                              obligation="correspondence pathops: %s checked indexing (model vs -D_GLIBCXX_ASSERTIONS build)" % it["routine"])
+                    ck.count("rope:bounds-checked-build-clean")
                     continue
-            if ck.report({"engine": "pathops", "routine": it["routine"], "clause": "indices_in_range", "class": it["cls"]},
-                         script=it["script"], expected=it.get("model"), observed=it["observed"], engine="pathops"):
-                state["bad"] += 1
-        elif it["kind"] == "oracle":
+            else:
+                continue
+        if kind == "regress":
+            key = (it["routine"], it["clause"], it["cls"])
+            if capped(key):
+                continue
+            state["bad"] += 1
+            ck.log("property failure (as before fix %s): %s/%s: %s" % (it["fid"], it["routine"], it["clause"], it["detail"][:200]))
+            ck.report({"engine": "pathops", "routine": it["routine"], "clause": it["clause"], "class": it["cls"], "as_before_fix": it["fid"],
+                       "what": it["detail"]}, script=it["script"], expected=it.get("model"), observed=it["observed"], engine="pathops")
+        elif kind == "idx":
+            key = (it["routine"], it["clause"], it["cls"])
+            if capped(key):
+                continue
+            state["bad"] += 1
+            confirmed = confirm_f9(ck, hchk, it)
+            ck.log("index error in %s (model's checked indexing fails; bounds-checked build aborts: %s)" % (it["routine"], confirmed))
+            if confirmed:
+                ck.report({"engine": "pathops", "routine": it["routine"], "clause": "indices_in_range", "class": it["cls"], "what": it["detail"]},
+                          script=it["script"], expected=it.get("model"), observed=it["observed"], engine="pathops")
+            else:
+                ck.disagreements += 1
+                ck.report({"engine": "pathops", "routine": it["routine"], "what": "model reports an index error that the bounds-checked build does not see"},
+                          script=it["script"], expected=it.get("model"), observed=it["observed"], found_input=False, engine="pathops",
+                          obligation="correspondence pathops: %s checked indexing (model vs -D_GLIBCXX_ASSERTIONS build)" % it["routine"])
+        elif kind == "oracle":
+            key = (it["routine"], it["clause"], it.get("cls"))
+            if capped(key):
+                continue
             if ck.known_finding({"engine": "pathops", "routine": it["routine"], "clause": it["clause"], "class": it.get("cls")}) is None:
                 state["bad"] += 1
                 ck.log("property failure: %s/%s: %s" % (it["routine"], it["clause"], it["detail"][:300]))
             ck.report({"engine": "pathops", "routine": it["routine"], "clause": it["clause"], "objective": it.get("objective", "len"),
                        "class": it.get("cls"), "what": it["detail"]}, script=it["script"], expected=None, observed=it["observed"], engine="pathops")
         else:
+            key = (it["routine"], "lockstep", None)
+            if capped(key):
+                continue
             state["bad"] += 1
             ck.disagreements += 1
             ck.log("correspondence disagreement: %s: %s" % (it["routine"], it["detail"]))
@@ -839,7 +966,7 @@ def run(ck):
     if ck.tier == "thorough" and ck.lean_ok:
         ck.leanchecker(["OmplModel.Props.C17"])
     hbin, hchk = build(ck)
-    state = {"bad": 0, "f9_probes": 0, "f9_tree": None, "idx_confirmed": 0}
+    state = {"bad": 0, "f9_probes": 0, "seen": {}}
     for name, script in corpus():
         handle(ck, run_corpus_script(ck, hbin, name, script, hchk), hchk, state)
         ck.count("scripts:corpus")
@@ -863,9 +990,14 @@ def run(ck):
     with concurrent.futures.ThreadPoolExecutor(max_workers=12) as ex:
         futs = [ex.submit(run_scenario, ck, hbin, hchk, sc, ops, "gen", i) for i, sc, ops, _ in jobs]
         futs += [ex.submit(run_hybrid, ck, hbin, sc, r.fork("hyb")) for i, sc, ops, r in jobs if sc.kind != "se2"]
+        futs += [ex.submit(run_repair, ck, hbin, sc, r.fork("repair")) for i, sc, ops, r in jobs if sc.kind != "se2"]
+        for j in range(8 if ck.tier == "quick" else 40):
+            csc, cops = gen_corner_scenario(ck.rng.fork("corner%d" % j))
+            ck.count("scenario:corner-zigzag")
+            futs.append(ex.submit(run_scenario, ck, hbin, hchk, csc, cops, "corner", j))
         for f in futs:
             handle(ck, f.result(), hchk, state)
-            if state["bad"] >= 5:
+            if state["bad"] >= 14:
                 break
     return 0
 
@@ -888,14 +1020,16 @@ def replay(ck, data):
         print("\n".join(data.get("observed") or []))
         return 1
     issues = run_corpus_script(ck, hbin, "replay", script, hchk)
-    state = {"bad": 0, "f9_probes": 0, "f9_tree": None, "idx_confirmed": 0}
     rc = 0
     for it in issues:
+        if it["kind"] == "f9probe":
+            if confirm_f9(ck, hchk, it):
+                print("regress rope/indices_in_range: the bounds-checked build (-D_GLIBCXX_ASSERTIONS) aborts: states[j] read past end() (as before fix F9)")
+                rc = 1
+            continue
         print("%s %s/%s [%s]: %s" % (it["kind"], it["routine"], it.get("clause"), it.get("cls"), it["detail"][:1500]))
-        if it["kind"] == "f9" and "past end" in it["cls"]:
-            print("  bounds-checked build (-D_GLIBCXX_ASSERTIONS) aborts: %s" % confirm_f9(ck, hchk, it))
         rc = 1
-    if not issues:
+    if rc == 0:
         print("no failure on the current tree")
     return rc
 
@@ -910,7 +1044,7 @@ MANIFEST = {
             "PathGeometric::subdivide / interpolate() / interpolate(count)): first/last state kept, only input or validated motions, "
             "result a subsequence (vertex removal) or supersequence (densification) of the input, never longer under the triangle "
             "inequality, exactly the requested number of states, checked indexing never fails (with the F9 witness for "
-            "ropeShortcutPath's stale index). The model is tied to PathSimplifier.cpp / PathGeometric.cpp by bit-exact lock-step runs "
+            "ropeShortcutPath before fix 695c3e72c), simplify's return value. The model follows the tree after the fixes F9/F55/F56 and is tied to PathSimplifier.cpp / PathGeometric.cpp by bit-exact lock-step runs "
             "(scripted random draws, recorded checkMotion transcript as oracle). smoothBSpline, perturbPath, findBetterGoal, simplify, "
             "simplifyMax and PathHybridization are NOT modelled: they are covered by trace conformance only (seeded runs, recorded "
             "checkMotion transcript, the property evaluated on the real outputs).",
